@@ -2,6 +2,7 @@
    keys at known places is split by breakOutputIntoPieces exactly at those
    places (when the prefix occurs nowhere else), so substituteFinalPaths yields
    the same text with the final paths at those places. *)
+From V Require Export C18.CleanProofs.
 From V Require Import Common.Base C01.Utf C01.Quote C18.Pieces C18.PiecesProofs
   C19.Json C19.JsonSpec C19.JsonProofs C19.Layout C19.LayoutProofs.
 
@@ -126,61 +127,9 @@ Proof.
       rewrite IH by exact Hr'. unfold flat. cbn [map fbytes concat app]. reflexivity.
 Qed.
 
-(* ---- splitting a text whose only occurrences of the prefix are its keys ---- *)
-
-Inductive clean (prefix : bytes) (nf nc : Z) : list piece -> Prop :=
-| clean_last d : occurs prefix d = false -> clean prefix nf nc [mkPiece d 0 0]
-| clean_cons d k i r :
-    is_ref k = true -> 0 <= i < 10 ^ 8 -> (k = 1 -> i < nf) -> (k = 2 -> i < nc) ->
-    index_of prefix (d ++ prefix) = Some (length d) ->
-    clean prefix nf nc r -> clean prefix nf nc (mkPiece d i k :: r).
-
-Lemma is_prefix_ext p : forall a t, (length p <= length a)%nat -> is_prefix p (a ++ t) = is_prefix p a.
-Proof.
-  induction p as [|x p IH]; intros a t H; [reflexivity|].
-  destruct a as [|y a]; [cbn in H; lia|]. cbn [app is_prefix].
-  rewrite IH by (cbn [length] in H; lia). reflexivity.
-Qed.
-
-Lemma index_of_clean p t : forall d,
-  index_of p (d ++ p) = Some (length d) -> index_of p (d ++ p ++ t) = Some (length d).
-Proof.
-  induction d as [|x d IH]; intro H.
-  - cbn [app length]. rewrite index_of_unfold, is_prefix_app. reflexivity.
-  - cbn [app length] in *. rewrite index_of_unfold in H. rewrite index_of_unfold.
-    assert (E : is_prefix p (x :: d ++ p ++ t) = is_prefix p (x :: d ++ p)).
-    { change (x :: d ++ p ++ t) with ((x :: d) ++ p ++ t). rewrite app_assoc.
-      apply is_prefix_ext. cbn [app length]. rewrite app_length. lia. }
-    rewrite E. destruct (is_prefix p (x :: d ++ p)); [discriminate|].
-    destruct (index_of p (d ++ p)) as [n|] eqn:En; [|discriminate].
-    inversion H; subst n. rewrite (IH eq_refl). reflexivity.
-Qed.
-
-Lemma break_clean prefix nf nc ps : clean prefix nf nc ps ->
-  forall fuel, (length (join_with_keys prefix ps) < fuel)%nat ->
-  break_pieces fuel prefix nf nc (join_with_keys prefix ps) = Some ps.
-Proof.
-  induction 1 as [d Ho|d k i r Hk Hi H1 H2 Hx Hc IH]; intros fuel Hf.
-  - cbn [join_with_keys pdata pkind pidx] in *. change (is_ref 0) with false in *. cbv iota in *.
-    rewrite !app_nil_r in *. destruct fuel; [lia|]. cbn [break_pieces].
-    unfold occurs in Ho. destruct (index_of prefix d); [discriminate|reflexivity].
-  - cbn [join_with_keys pdata pkind pidx] in *. rewrite Hk in *.
-    destruct fuel; [lia|]. cbn [break_pieces].
-    unfold key_bytes in *. rewrite <- app_assoc in *.
-    rewrite (index_of_clean prefix _ d Hx).
-    assert (Es : skipn (length d + length prefix)
-                   (d ++ prefix ++ (byte_of_kind k :: digits_n 8 i) ++ join_with_keys prefix r)
-                 = byte_of_kind k :: digits_n 8 i ++ join_with_keys prefix r).
-    { rewrite app_assoc. rewrite <- app_length. rewrite skipn_app, skipn_all, Nat.sub_diag. reflexivity. }
-    rewrite Es. rewrite parse_key_key by assumption.
-    assert (E9 : skipn 9 (byte_of_kind k :: digits_n 8 i ++ join_with_keys prefix r) = join_with_keys prefix r).
-    { change (skipn 9 (?x :: ?l)) with (skipn 8 l).
-      pose proof (digits_n_length 8 i) as L. rewrite <- L at 1.
-      rewrite skipn_app, skipn_all, Nat.sub_diag. reflexivity. }
-    rewrite E9. rewrite IH.
-    2:{ rewrite !app_length in Hf. cbn [length] in Hf. lia. }
-    rewrite firstn_app, firstn_all, Nat.sub_diag. cbn [firstn]. rewrite app_nil_r. reflexivity.
-Qed.
+(* ---- splitting a text whose only occurrences of the prefix are its keys ----
+   clean, is_prefix_ext, index_of_clean, break_clean: in the shared pieces layer,
+   coq/C18/CleanProofs.v (re-exported here) *)
 
 Lemma break_joiner_of_output prefix nf nc pathOf out ps :
   break_output prefix nf nc out = Some ps ->
